@@ -58,6 +58,51 @@ pub fn run(ctx: &mut Ctx) {
             one(ctx, &cl, &p, true);
         });
     }
+    // one builder, several CNFs over the same variables (relatives of each other: shared
+    // clauses, so that residual formulas of different compilations look alike), the first one
+    // compiled once more at the end
+    for case in ctx.cases("reuse", 600, true) {
+        ctx.run_case("reuse", case, |ctx, rng| {
+            let base = gen_cnf(rng, 8);
+            let nv = usize::max(1, clauses_num_vars(&base));
+            let mut cls = vec![base.clone()];
+            for _ in 0..rng.range(1, 3) {
+                let mut c = if rng.chance(1, 3) { gen_cnf(rng, nv) } else { base.clone() };
+                // drop / flip / add a clause
+                for _ in 0..rng.range(1, 3) {
+                    match rng.below(3) {
+                        0 if !c.is_empty() => {
+                            let i = rng.below(c.len());
+                            c.remove(i);
+                        }
+                        1 if !c.is_empty() => {
+                            let i = rng.below(c.len());
+                            if !c[i].is_empty() {
+                                let j = rng.below(c[i].len());
+                                c[i][j].1 = !c[i][j].1;
+                            }
+                        }
+                        _ => {
+                            let w = rng.range(1, 3);
+                            c.push((0..w).map(|_| (rng.below(nv), rng.bool())).collect());
+                        }
+                    }
+                }
+                cls.push(c);
+            }
+            cls.push(base);
+            // C06 is about orders over the CNF's own variables: every CNF compiled by this builder
+            // gets exactly the builder's variables (a clause on the last variable is added if needed)
+            for c in cls.iter_mut() {
+                if clauses_num_vars(c) < nv {
+                    c.push(vec![(nv - 1, rng.bool()), (rng.below(nv), rng.bool())]);
+                }
+            }
+            let n = cls.iter().map(clauses_num_vars).max().unwrap();
+            let p = rng.perm(n);
+            many(ctx, &cls, &p, case % 2 == 0);
+        });
+    }
 }
 
 /// generator biased to unit clauses, implication chains, UNSAT discovered after
@@ -107,21 +152,63 @@ fn gen_cnf(rng: &mut Rng, max_vars: usize) -> Clauses {
 }
 
 fn one(ctx: &mut Ctx, cl: &Clauses, perm: &[usize], semantic: bool) {
-    // the order is over the CNF's own variables; the oracle table over the generator's
-    let n = usize::max(perm.len(), clauses_num_vars(cl));
-    let cnf = clauses_to_cnf(cl);
+    many(ctx, std::slice::from_ref(cl), perm, semantic);
+}
+
+/// all CNFs are compiled, one after the other, by ONE builder (a builder is reusable: what an
+/// earlier compilation left in the node store or anywhere else must not change a later one)
+fn many(ctx: &mut Ctx, cls: &[Clauses], perm: &[usize], semantic: bool) {
+    // the order is over the CNFs' own variables; the oracle table over the generator's
+    let n = cls.iter().map(clauses_num_vars).fold(perm.len(), usize::max);
     let order = VarOrder::new(&perm.iter().map(|x| VarLabel::new(*x as u64)).collect::<Vec<_>>());
-    let exp = clauses_tt(cl, n);
-    let info = json!({"clauses": clauses_json(cl), "order": perm, "store": if semantic { "semantic64" } else { "standard" }});
     crate::caps::set_unique(Some(64));
+    macro_rules! go {
+        ($b:expr) => {{
+            let b = $b;
+            crate::caps::set_unique(None);
+            let mut earlier: Vec<(BddPtr, Tt)> = Vec::new();
+            for (i, cl) in cls.iter().enumerate() {
+                let cnf = clauses_to_cnf(cl);
+                let exp = clauses_tt(cl, n);
+                let info = json!({"clauses": clauses_json(cl), "order": perm, "store": if semantic { "semantic64" } else { "standard" },
+                    "compiled_before_in_the_same_builder": cls[..i].iter().map(clauses_json).collect::<Vec<_>>()});
+                if i > 0 {
+                    ctx.count("compilations_in_a_used_builder", 1);
+                }
+                let r = check(ctx, &b, &cnf, n, &exp, &info);
+                // results of earlier compilations keep denoting their CNF
+                let mut w = BddWalker::new(usize::max(n, 1));
+                for (j, (p, t)) in earlier.iter().enumerate() {
+                    if w.tt(*p) != *t {
+                        ctx.violation("topdown.drift", "the result of an earlier compilation changed its function after a later compilation in the same builder",
+                            json!({"input": info, "earlier": j}));
+                    }
+                }
+                earlier.push((r, if n == 0 { exp.widen(1) } else { exp }));
+            }
+            // literals made by the builder itself
+            if n > 0 && !perm.is_empty() {
+                let mut w = BddWalker::new(n);
+                for v in perm.iter().take(3) {
+                    for pol in [true, false] {
+                        let l = TopDownBuilder::var(&b, VarLabel::new(*v as u64), pol);
+                        ctx.count("builder_literals", 1);
+                        if w.tt(l) != Tt::lit(n, *v, pol) {
+                            ctx.violation("topdown.var", "TopDownBuilder::var does not denote the literal", json!({"var": v, "polarity": pol, "order": perm}));
+                        }
+                        let c = TopDownBuilder::condition(&b, l, VarLabel::new(*v as u64), true);
+                        if w.tt(c) != Tt::konst(n, pol) {
+                            ctx.violation("topdown.var", "a builder-made literal conditioned on its own variable is not the constant", json!({"var": v, "polarity": pol, "order": perm}));
+                        }
+                    }
+                }
+            }
+        }};
+    }
     if semantic {
-        let b = SemanticDecisionNNFBuilder::<{ primes::U64_LARGEST }>::new(order);
-        crate::caps::set_unique(None);
-        check(ctx, &b, &cnf, n, &exp, &info);
+        go!(SemanticDecisionNNFBuilder::<{ primes::U64_LARGEST }>::new(order))
     } else {
-        let b = StandardDecisionNNFBuilder::new(order);
-        crate::caps::set_unique(None);
-        check(ctx, &b, &cnf, n, &exp, &info);
+        go!(StandardDecisionNNFBuilder::new(order))
     }
 }
 
@@ -145,7 +232,7 @@ fn vars_below(p: BddPtr, memo: &mut HashMap<usize, u64>, twice: &mut bool) -> u6
     }
 }
 
-fn check<'a, B: DecisionNNFBuilder<'a>>(ctx: &mut Ctx, b: &'a B, cnf: &rsdd::repr::Cnf, n: usize, exp: &Tt, info: &Value) {
+fn check<'a, B: DecisionNNFBuilder<'a>>(ctx: &mut Ctx, b: &'a B, cnf: &rsdd::repr::Cnf, n: usize, exp: &Tt, info: &Value) -> BddPtr<'a> {
     let r = b.compile_cnf_topdown(cnf);
     let mut w = BddWalker::new(usize::max(n, 1));
     let expw = if n == 0 { exp.widen(1) } else { exp.clone() };
@@ -158,7 +245,7 @@ fn check<'a, B: DecisionNNFBuilder<'a>>(ctx: &mut Ctx, b: &'a B, cnf: &rsdd::rep
     if got != expw {
         ctx.violation("topdown.function", "top-down result denotes a wrong function",
             json!({"input": info, "observed": got.hex(), "expected": expw.hex(), "diagram": bdd_canon_string(r)}));
-        return;
+        return r;
     }
     if r.is_false() != exp.is_false() {
         ctx.violation("topdown.false_const", "false constant returned iff unsatisfiable is violated",
@@ -193,4 +280,5 @@ fn check<'a, B: DecisionNNFBuilder<'a>>(ctx: &mut Ctx, b: &'a B, cnf: &rsdd::rep
     if ctx.wants_sample() {
         ctx.sample(json!({"input": info, "function": expw.hex(), "diagram": bdd_canon_string(r)}));
     }
+    r
 }
